@@ -384,6 +384,133 @@ def clause_event_kind(facts, rep, classes=('sonic_json::SchemaHandler', 'sonic_j
     rep.require(n >= 8, 'event-kind: %d scalar events found in %s (>= 8 expected)' % (n, classes))
 
 
+def clause_model(facts, rep, tier):
+    """ParseSchema against the recursive-merge specification by bounded exploration (sv/schema_model.py): the
+    SchemaHandler event methods are interpreted from their CFGs, driven as Parser::parseImpl drives a handler with
+    check_key_return, on the node / block / ledger model of sv/dom_model.py, for every (existing document, text) pair
+    of a universe of ~100 (thorough: 165) trees - all leaf kinds, arrays and objects of <= 2 members in both key
+    orders, containers of representative containers - and for two texts applied one after the other.  The document
+    afterwards must be merge(existing, text); nothing may be read or written outside a block, released twice or
+    leaked."""
+    from .. import schema_model as sm
+    from ..schema_model import T, Schema, merge, teq, tstr
+    from ..dom_model import Machine
+    from ..minterp import Unsupported, UndefinedBehaviour
+    import itertools
+    tags = {}
+    for en in facts.enums:
+        if en.get('qn', '').endswith('TypeFlag'):
+            for c in en.get('values', []):
+                tags[c['name']] = int(c['v'])
+    nfns, hfns = {}, {}
+    for f in facts.functions:
+        if f.name.startswith('sonic_json::DNode<sonic_json::SimpleAllocator>') or f.name.startswith('sonic_json::DNode<SAlloc>'):
+            if f.short == 'findMemberImpl' and f.params and 'StringView' not in f.params[0]['t'] and 'basic_string_view' not in f.params[0]['t']:
+                continue
+            nfns.setdefault(f.short, f)
+        if f.cls_qn == HANDLER and ('SAlloc' in f.name or 'SimpleAllocator' in f.name):
+            hfns.setdefault(f.short, f)
+    need = ('StartObject', 'EndObject', 'StartArray', 'EndArray', 'Key', 'String', 'Null', 'Bool', 'Uint', 'Int', 'Double', 'node', 'stringImpl')
+    rep.require(all(n in hfns for n in need) and 'destroy' in nfns and 'findMemberImpl' in nfns and 'kObject' in tags,
+                'C19: SchemaHandler / DNode functions of the freeing-allocator instantiation not all found')
+    for n_ in need:
+        rep.fn(hfns[n_])
+    S = Schema(facts, hfns, nfns, tags)
+    U = lambda v: T('uint', v)
+    St = lambda v: T('str', v)
+    O = lambda *kv: T('obj', None, list(kv))
+    A = lambda *x: T('arr', None, list(x))
+    leaves = [U(1), St('s'), T('null'), T('true'), T('sint', -2), T('real', 1.5), U((1 << 64) - 1)]
+    small = leaves[:3]
+
+    def objs(vals, keys=('a', 'b')):
+        out = [O()]
+        for v in vals:
+            out.append(O((keys[0], v)))
+        for v, w in itertools.product(vals, repeat=2):
+            out.append(O((keys[0], v), (keys[1], w)))
+            out.append(O((keys[1], w), (keys[0], v)))
+        return out
+
+    def arrs(vals):
+        out = [A()]
+        for v in vals:
+            out.append(A(v))
+        for v, w in itertools.product(vals, repeat=2):
+            out.append(A(v, w))
+        return out
+    l1 = objs(small) + arrs(small)
+    reps = [O(), O(('a', U(1))), O(('a', U(1)), ('b', St('s'))), O(('b', U(2)), ('a', U(1))), A(U(1)), A(), U(1)]
+    l2 = objs(reps) + arrs(reps[:4])
+    three = [O(('a', U(1)), ('b', O(('x', U(1)), ('y', U(2)))), ('c', A(U(3)))), O(('c', St('z')), ('a', O(('q', U(0)))), ('zz', U(9))),
+             O(('b', O(('y', A(U(7))), ('w', U(1)))), ('c', O(('k', T('null'))))), O(('idx', U(0)), ('id', U(0))), O(('id', U(5)), ('idx', U(6))),
+             # a nested object whose members arrive in another order and one of which is replaced by a new object, then a
+             # key of the enclosing object; an object replaced by an array of objects; an array of objects into an object
+             O(('x', O(('p', U(0)), ('q', U(0)), ('r', U(0)))), ('y', U(0))), O(('x', O(('q', U(5)), ('r', U(6)), ('p', O(('zz', U(1)))))), ('y', U(7))),
+             O(('a', O(('b', U(1))))), O(('a', A(O(('b', U(2)))))), O(('a', U(0))), A(O(('a', U(1)))),
+             O(('x', O(('p', A(O(('p', U(1))), U(2))), ('q', O(('zz', O(('p', U(3)))))))), ('y', A(A(O(('y', U(4))))))) ]
+    univ = leaves + l1 + (l2 if tier == 'thorough' else l2[:50]) + three
+    bad = None
+    n = 0
+
+    def once(e, texts):
+        M = Machine(facts, nfns, tags)
+        root = S.build(M, e)
+        want = e
+        for t in texts:
+            ok = S.parse_into(M, root, t)
+            want = merge(want, t)
+            if not ok:
+                return 'the handler refused an event'
+            got = S.read(root)
+            if not teq(got, want):
+                return 'the document is %s, the specification gives %s' % (tstr(got), tstr(want))
+        M.call('destroy', root)
+        if M.ledger.live:
+            return 'after destroying the document: still allocated (leaked): %s' % sorted(set(M.ledger.live.values()))
+        return None
+    try:
+        for e in univ:
+            for t in univ:
+                if sm.has_ambiguity(e, t):
+                    continue
+                n += 1
+                try:
+                    r = once(e, [t])
+                except UndefinedBehaviour as ux:
+                    r = 'undefined behaviour: %s' % ux
+                if r:
+                    bad = 'document %s, text %s: %s' % (tstr(e), tstr(t), r)
+                    break
+            if bad:
+                break
+        if bad is None:
+            hs = (three + l1[:9]) if tier == 'quick' else (three + l1 + l2[:20])
+            ts = (three + l1[:14] + leaves[:2]) if tier == 'quick' else univ[:70]
+            for e in hs:
+                for t1 in ts:
+                    for t2 in ts:
+                        if sm.has_ambiguity(e, t1) or sm.has_ambiguity(merge(e, t1), t2):
+                            continue
+                        n += 1
+                        try:
+                            r = once(e, [t1, t2])
+                        except UndefinedBehaviour as ux:
+                            r = 'undefined behaviour: %s' % ux
+                        if r:
+                            bad = 'document %s, texts %s then %s: %s' % (tstr(e), tstr(t1), tstr(t2), r)
+                            break
+                    if bad:
+                        break
+                if bad:
+                    break
+    except Unsupported as ex:
+        raise AnalysisBroken('C19: the SchemaHandler model cannot interpret the handler: %s' % ex)
+    rep.extra['schema_pairs_explored'] = n
+    rep.check(bad is None, 'E6.schema-merge', HANDLER, 'document after ParseSchema == merge(existing, text) on %d (document, text[, text]) cases' % n,
+              hfns['Key'].loc, bad or '', facts.config)
+
+
 def run(rep, tier):
     configs = ['K1'] if tier == 'quick' else ['K1', 'K3', 'K7']
     for cfg in configs:
@@ -413,6 +540,10 @@ def run(rep, tier):
         from . import c13
         c13.clause_g(facts, rep)
         c13.clause_c(facts, rep)     # a replaced document node is destroy()ed before - not after - its header is rewritten
+    try:
+        clause_model(get_facts('K1'), rep, tier)
+    except AnalysisBroken as ex:
+        rep.broken.append(str(ex))
     rep.trust('clang 14 front end and CFG builder', 'std::vector emplace_back/push_back add one element, pop_back removes one, back() reads the last')
     rep.assumptions += [
         'decides the mode and context-stack discipline of SchemaHandler (Start/End stack effects agree, saved contexts are restored before being popped, no existing object is consulted while a new value is built, Key accepts exactly found members)',
